@@ -11,6 +11,7 @@ state-machine models (PAV coefficient cache, Borda scorer state, reseeding RNG) 
 the same call sequences and compared with the observable state of the implementation (`obj._coefs`,
 `scorer.n_candidates/_scores`) and its outputs.
 """
+import os
 import sys
 import copy
 import json
@@ -688,6 +689,15 @@ def _targets():
     add('RankedVoteValidator:perrank', lambda: vvote.RankedVoteValidator(rank_vote_count_bounds={0: (1, 1), 1: (1, 2), 3: (2, 2)}),
         lambda rng: call('validate', g_ranking(rng, CN[:4])),
         model='rankval', cfg={'total': [None, None], 'explicit': [[0, [1, 1]], [1, [1, 2]], [3, [2, 2]]], 'dflt': [None, None]})
+    add('RankedVoteValidator:checkers',
+        lambda: vvote.RankedVoteValidator(rank_vote_count_checkers={1: vvote.VoteMagnitudeChecker((1, 1)),
+                                                                    3: vvote.VoteMagnitudeChecker((1, 2))}),
+        lambda rng: call('validate', g_ranking(rng, CN[:4])),
+        model='rankval', cfg={'total': [None, None], 'explicit': [[1, [1, 1]], [3, [1, 2]]], 'dflt': [None, None]})
+    add('ScoreVoteValidator:checkers',
+        lambda: vvote.ScoreVoteValidator(sum_checkers={2: vvote.VoteMagnitudeChecker((1, 5), 'sum')}), _c_validate_score,
+        model='scoreval', cfg={'nscorings': [None, None], 'explicit': [[2, [1, 5]]], 'dflt': [None, None],
+                               'post': {'kind': 'none'}})
     add('ScoreVoteValidator', lambda: vvote.ScoreVoteValidator((1, 3), (0, 9)), _c_validate_score,
         model='scoreval', cfg={'nscorings': [1, 3], 'explicit': [], 'dflt': [0, 9], 'post': {'kind': 'none'}})
     add('ScoreVoteValidator:persize', lambda: vvote.ScoreVoteValidator((None, None), {1: (0, 3), 2: (2, 6)}), _c_validate_score,
@@ -970,10 +980,23 @@ def _class_attrs(cls):
         for n, v in vars(k).items():
             if n.startswith('__') or callable(v) or isinstance(v, (staticmethod, classmethod, property, types.MemberDescriptorType)):
                 continue
-            if n in ('_abc_impl',):
+            if n in ('_abc_impl',) or not _plain_data(v):
                 continue
             out.append([f'{k.__name__}.{n}', enc(v, ordered=True)])
     return out
+
+
+def _plain_data(v, depth=0):
+    """numbers, strings, containers of those, and instances of library classes"""
+    if v is None or isinstance(v, (bool, int, float, str, bytes, Fraction, Decimal)):
+        return True
+    if depth > 4:
+        return False
+    if isinstance(v, (list, tuple, set, frozenset)):
+        return all(_plain_data(e, depth + 1) for e in v)
+    if isinstance(v, dict):
+        return all(_plain_data(a, depth + 1) and _plain_data(b, depth + 1) for a, b in v.items())
+    return type(v).__module__.startswith('votelib') and not isinstance(v, type)
 
 
 def _state(obj):
@@ -992,7 +1015,7 @@ def _module_state():
         for n, v in vars(mod).items():
             if n.startswith('__') or isinstance(v, (types.ModuleType, types.FunctionType, type)) or callable(v) and not hasattr(v, '__dict__'):
                 continue
-            if getattr(v, '__module__', None) == 'typing' or type(v).__module__ in ('typing', 'logging', 're'):
+            if not _plain_data(v):
                 continue
             out.append([f'{mod.__name__}.{n}', enc(v, ordered=True)])
     return out
@@ -1078,13 +1101,35 @@ def run_history(case):
     return obs
 
 
+_ISOLATE = False        # switched on when the shrinker starts: from then on every history runs in a fresh interpreter
+
+
+def run_isolated(case):
+    """run one history in a FRESH interpreter (same repo, same hash seed): state that leaked into this process from
+    earlier histories (class attributes, module globals, shared defaults, the global RNG) cannot mask or fake a failure,
+    so a shrunk history and the written replay reproduce on their own"""
+    import subprocess
+    code = ('import sys, json\n'
+            f'sys.path[:0] = [{os.path.join(VERIF, "harness")!r}, {REPO!r}]\n'
+            'from props import C18\n'
+            'print("\\n@@" + json.dumps(C18.run_history(json.load(sys.stdin))))\n')
+    env = dict(os.environ, VOTELIB_REPO=REPO, PYTHONDONTWRITEBYTECODE='1')
+    p = subprocess.run([sys.executable, '-c', code], input=json.dumps(strip_case(case)), stdout=subprocess.PIPE,
+                       stderr=subprocess.PIPE, text=True, timeout=300, env=env)
+    for line in p.stdout.split('\n'):
+        if line.startswith('@@'):
+            return json.loads(line[2:])
+    raise RuntimeError('isolated run failed: ' + p.stderr[-400:])
+
+
 def impl(case):
     if case['op'] != 'history':
         raise ValueError(case['op'])
-    try:
-        return call_with_timeout(lambda: run_history(case), 60)
-    except TimeoutError:
-        return {'err': 'Timeout'}
+    # every library call inside runs under its own 3 s alarm (`outcome`): common.call_with_timeout does not nest (the inner
+    # alarm(0) cancels the outer alarm), so there is no outer watchdog here
+    if _ISOLATE or os.environ.get('VERIF_C18_ISOLATE'):
+        return run_isolated(case)
+    return run_history(case)
 
 
 def oracle(case, obs):
@@ -1173,7 +1218,7 @@ RANDOM_FAMILY = ['Sortitor', 'Sortitor:seed8', 'Sortitor:unseeded', 'RandomUnran
 
 def generate(rng, tier):
     TG = TARGETS()
-    reps = 3 if tier == 'quick' else 25
+    reps = 3 if tier == 'quick' else 40
     names = list(TG)
     # (1) every class / singleton, single shared instance
     for name in names:
@@ -1473,6 +1518,8 @@ def describe(case):
 
 
 def shrink_candidates(case):
+    global _ISOLATE
+    _ISOLATE = True         # candidates (and the final re-run that is written into the replay) run in fresh interpreters
     calls = case['calls']
     # drop a call
     for i in range(len(calls)):
@@ -1497,7 +1544,7 @@ def shrink_candidates(case):
 REQUIRED = ['history_independent_pav', 'pav_output_is_spec', 'pav_cache_invariant', 'pav_cache_contents', 'pav_cache_length',
             'pav_repeated_call', 'history_independent_pav_with_borda',
             'history_dependent_pav_old_witness',
-            'history_independent_borda', 'borda_state_after', 'history_dependent_borda_setOnce_witness',
+            'history_independent_borda', 'borda_output_is_spec', 'borda_state_after', 'history_dependent_borda_setOnce_witness',
             'scorer_raw_protocol_witness',
             'history_independent_seeded', 'seeded_draws_function_of_seed', 'seeded_draws_explicit',
             'history_dependent_unseeded_witness',
@@ -1509,8 +1556,9 @@ NOT_VERIFIED = [
     'and fresh runs) — a fact about Python object identity that no Lean model exhibits',
     'MONITORED, not proved: shared default arguments stay empty / unchanged (`__defaults__` and `__kwdefaults__` of every '
     'function of the library compared with their import-time snapshot after every run)',
-    'MONITORED, not proved: classes without a state-machine model have no state — `vars(obj)` of every shared instance is '
-    'snapshotted around every call; a drifting attribute not covered by a model is a broken correspondence',
+    'MONITORED, not proved: classes without a state-machine model have no state — `vars(obj)` of every shared instance (with the '
+    'data attributes of its classes, shared by all instances) is snapshotted around every call and the module-level data of '
+    'the library around every history; a drifting attribute not covered by a model is a broken correspondence',
     'the process-wide `random` generator is modelled abstractly (any state type, any deterministic reseed / draw); that '
     'CPython\'s random.seed(s) fully determines the following draws is assumed',
     'frozenset iteration order (PAV candidate pool, satisfaction-drop dict) is modelled as first-occurrence order; the '
